@@ -8,6 +8,9 @@
         events   = list of  <t>:<kind>   kind ∈ d (data) | c (complete) | hn | hb | hm (head: no body /
                    with body / intercepted CONNECT) | rs (the proxy starts writing the response) |
                    tu (the tunnel is up: 2xx to CONNECT / 101 written);  `~` = no event
+                   evaluated by `runK` (the keep-alive loop with the reader: d / h* events that arrive while
+                   the proxy serves the previous request are kept and consumed when the loop comes round;
+                   equal to `run` when nothing is sent ahead — `c15_loop_agrees_without_write_ahead`)
     accept <stacking> <limits> <free> <peers>     → list of <accept>:<start>
         peers    = list of  <arrive>:<hdr>   hdr = instant the PROXY header is complete, `x` = never
                    (what a peer sends does not enter the accept loop; it is part of the request all the same)
@@ -76,7 +79,7 @@ def showOutcome : Outcome → String
 def handle : List String → String
   | ["deadline", st, lim, t, evs] =>
     match stackingOf st, limitsOf lim, natOf t, (splitList evs).mapM timedEvOf with
-    | some S, some L, some t, some es => showOutcome (run S L (accepted S L t) es)
+    | some S, some L, some t, some es => showOutcome (runK S L ⟨accepted S L t, []⟩ es)
     | _, _, _, _ => "bad-op"
   | ["accept", st, lim, free, peers] =>
     match stackingOf st, limitsOf lim, natOf free, (splitList peers).mapM peerOf with
